@@ -272,6 +272,13 @@ func genC08Str(t *rapid.T) c08Str {
 		unit := rapid.SampledFrom([]string{"1", "q", "z", ":", "bitcoincash:", "0", "Q", "\xff", "l", "a1"}).Draw(t, "unit")
 		c.S = strings.Repeat(unit, rapid.IntRange(1, 16000/len(unit)).Draw(t, "rep"))
 	case 9:
+		if rapid.Bool().Draw(t, "wsruns") {
+			c.Origin = "whitespace-runs"
+			core := rapid.SampledFrom([]string{"", "q", "1", "bitcoincash:", "bchtest:q", ":", "qq", "a1"}).Draw(t, "core")
+			ws := strings.Repeat(rapid.SampledFrom([]string{"\n", "\r\n", " ", "\t", "\r", "\x00"}).Draw(t, "ws"), rapid.IntRange(1, 60).Draw(t, "wsn"))
+			c.S = []string{core + ws, ws + core, ws + core + ws}[rapid.IntRange(0, 2).Draw(t, "wsside")]
+			break
+		}
 		c.Origin = "random"
 		c.S = string(rapid.SliceOfN(rapid.Byte(), 0, 200).Draw(t, "s"))
 	default:
